@@ -274,42 +274,119 @@ def run(ctx, prog):
     from .c14 import init_var_of
     for cls, _, _ in ents:
         short = cat.short(cls)
-        roots = [f for _, _, f in evaluator_overrides(prog, cls, scalar)]
+        vec_members = set()
+        for r_ in prog.base_chain(cls):
+            if r_.startswith('MASA::manufactured_solution<'):
+                continue
+            for fld in prog.records.get(r_, {}).get('fields', []):
+                if 'std::vector<' in str(fld.get('t', '')):
+                    vec_members.add(fld['n'])
+        if not vec_members:
+            continue
+        # init_var works on vectors of constant length: every subscript is evaluated concretely (vector model of sa/terms.py)
         iv = init_var_of(prog, cls)
         if iv is not None:
-            roots.append(iv)
-        for (q, sig), f in reachable(prog, cls, roots).items():
-            if not f.get('rec') or 'manufactured_solution<' in f.get('rec', '') and f.get('rec', '').startswith('MASA::manufactured_solution<'):
-                continue
-            subs = []
-            for c in calls(f.body, name='operator[]'):
-                a0 = strip(c['args'][0], casts=True)
-                if a0.get('k') == 'member' and 'std::vector<' in str(a0.get('t', '')):
-                    subs.append(c)
-            if not subs:
-                continue
-            guard_groups = guard_sets(prog, cls, f)
-            access = {}
-            if iv is not None and f is iv:
-                # init_var works on vectors of constant length: every subscript is evaluated concretely (vector model of sa/terms.py)
-                regs = cat.registrations(prog, cls)
-                regmap = {r['name']: '.'.join(r['path'][1:]) for r in regs if r['name'] is not None and r['path'] and r['path'][0] == 'this'}
-                E = terms.Evaluator(prog, dyn_class=cls, scalar=scalar, regmap=regmap, opaque=('register_var', 'register_vec'))
-                E.vecmodel = True
-                E.run(iv)
-                access = E.trace.vec_access
-            for c in subs:
+            regs = cat.registrations(prog, cls)
+            regmap = {r['name']: '.'.join(r['path'][1:]) for r in regs if r['name'] is not None and r['path'] and r['path'][0] == 'this'}
+            E = terms.Evaluator(prog, dyn_class=cls, scalar=scalar, regmap=regmap, opaque=('register_var', 'register_vec'))
+            E.vecmodel = True
+            E.run(iv)
+            for loc, st in sorted(E.trace.vec_access.items(), key=lambda z: str(z[0])):
                 n_sub += 1
-                v = strip(c['args'][0], casts=True)['n']
-                st = access.get(c['l'])
-                if st and st <= {'ok'}:
-                    ok, why = True, ''
-                elif st and 'oob' in st:
-                    ok, why = False, 'is outside [0, size) for the length the vector has at that point'
-                else:
-                    ok, why = subscript_bounded(f, c, v, guard_groups)
-                ctx.ob('C19.O6', '%s::%s|%s' % (short, f.n, c['l']), ok, c['l'], '%s::%s: %s[%s] %s' % (short, f.n, v, show(c['args'][1]), why),
-                       sample='%s::%s %s[%s] bounded' % (short, f.n, v, show(c['args'][1])))
+                ok = True if st <= {'ok'} else (False if 'oob' in st else None)
+                ctx.ob('C19.O6', '%s::init_var|%s' % (short, loc), ok, loc,
+                       '%s::init_var: subscript at %s %s' % (short, loc, 'is outside [0, size) for the length the vector has at that point' if ok is False else
+                                                          'is not evaluated with a constant index and length: not decided'),
+                       sample='%s::init_var subscript at %s in range' % (short, loc))
+        # evaluators: every element of a member vector read or written inside a loop is indexed by the loop variable, and the
+        # loop is bounded by the size of that vector (or of one that the path condition says has the same size)
+        for name, sig, f in evaluator_overrides(prog, cls, scalar):
+            E = terms.Evaluator(prog, dyn_class=cls, scalar=scalar)
+            E.unroll_paths = True
+            try:
+                outs = E.run(f)
+            except RecursionError:
+                continue
+            verdicts = {}
+            for o in list(outs) + [p_ for p_ in E.trace.exit_paths if p_ not in outs]:
+                # equal-size facts of this path
+                eq = {}
+
+                def find(x):
+                    while eq.get(x, x) != x:
+                        x = eq[x]
+                    return x
+
+                def size_of(t):
+                    t = c17.untrunc(t)
+                    if t[0] == 'size' and t[1][0] == 'sym':
+                        return t[1][1]
+                    return None
+
+                def learn(c, neg):
+                    while c[0] == 'not':
+                        neg = not neg
+                        c = c[1]
+                    if c[0] == 'or' and neg:
+                        learn(c[1], True)
+                        learn(c[2], True)
+                    elif c[0] == 'and' and not neg:
+                        learn(c[1], False)
+                        learn(c[2], False)
+                    elif c[0] == 'cmp' and ((c[1] == '!=' and neg) or (c[1] == '==' and not neg)):
+                        a_, b_ = size_of(c[2]), size_of(c[3])
+                        if a_ and b_:
+                            eq[find(a_)] = find(b_)
+                for c in o.conds:
+                    learn(c, False)
+
+                def visit(evs):
+                    for e in evs:
+                        if e[0] != 'loop':
+                            continue
+                        cond = e[1][0]
+                        ivar = bound = None
+                        if cond is not None and cond[0] == 'cmp' and cond[1] in ('<', '!=') and cond[2][0] == 'call' and cond[2][1] == 'loopvar':
+                            ivar, bound = cond[2], cond[3]
+                        for kind, conds, sub in e[1][1]:
+                            visit(sub)
+                            ts = []
+                            for x in sub:
+                                for y in x[1:]:
+                                    if isinstance(y, tuple):
+                                        ts.append(y)
+                            ts += list(conds)
+                            for t in ts:
+                                for st in (terms.subterms(t) if isinstance(t, tuple) and t and isinstance(t[0], str) else ()):
+                                    if not (st[0] == 'elem' and st[1][0] == 'sym' and st[1][1] in vec_members):
+                                        continue
+                                    V, idx = st[1][1], st[2]
+                                    key = (e[2], V, terms.fmt(idx)[:40])
+                                    off = 0
+                                    base = idx
+                                    if idx[0] == 'add' and len(idx[1]) == 2 and c17.untrunc(idx[1][1])[0] == 'num':
+                                        base, off = idx[1][0], int(c17.untrunc(idx[1][1])[1])
+                                    if ivar is None or c17.untrunc(base) != ivar:
+                                        verdicts.setdefault(key, (None, 'the index `%s` is not the variable of the enclosing loop: not decided' % terms.fmt(idx)[:40]))
+                                        continue
+                                    start = c17.untrunc(ivar[2][0])
+                                    if not (start[0] == 'num' and int(start[1]) + off >= 0 and off <= 0):
+                                        verdicts[key] = (False, 'index range starts at %s%+d' % (terms.fmt(start), off))
+                                        continue
+                                    W = size_of(bound)
+                                    if W is not None and (W == V or find(W) == find(V)):
+                                        verdicts.setdefault(key, (True, ''))
+                                    elif W is not None:
+                                        verdicts[key] = (False, 'is bounded by %s.size(), a different container, without an equal-size guard on the path' % W)
+                                    elif not any(z[0] == 'size' for z in terms.subterms(bound)):
+                                        verdicts[key] = (False, 'loop bound `%s` is not the size of the container' % terms.fmt(bound)[:40])
+                                    else:
+                                        verdicts.setdefault(key, (None, 'loop bound `%s` not recognised: not decided' % terms.fmt(bound)[:40]))
+                visit(o.events)
+            for (loc, V, ix), (ok, why) in sorted(verdicts.items(), key=str):
+                n_sub += 1
+                ctx.ob('C19.O6', '%s::%s|%s|%s[%s]' % (short, name, loc, V, ix), ok, loc, '%s::%s: %s[%s] %s' % (short, name, V, ix, why),
+                       sample='%s::%s %s[%s] bounded by its size' % (short, name, V, ix))
     ctx.floor('member_vector_subscripts', n_sub, 0)
 
 
